@@ -36,6 +36,8 @@ PRECONDITION_ASSERTS = (
     "assert ret_mpsi.any()",
     "assert new_mp[self.qnidx].array.any()",
     "assert nrmv > 0",
+    "assert self.check_left_canonical()",
+    "assert self.check_right_canonical()",
 )
 
 
@@ -428,12 +430,13 @@ def run_symbolic(harness, label="", max_paths=3000, budget_s=30.0, quick_ms=3000
             elif r == "unknown":
                 rep.unknown.append(("exception-path-feasibility", str(p.exception)))
             continue
+        rules = X.Rules(p.pc) if any(b.op == "eq0" for b in p.pc) else None
         for name, goal, info in p.obligations:
             rep.obligations += 1
             rep.witnessed.setdefault(name, False)
             if goal.op == "true":
                 rep.by_normal_form += 1
-            r, m = solve.discharge(tr, p.pc, goal, rep.stats, budget_s=budget_s, quick_ms=quick_ms)
+            r, m = solve.discharge(tr, p.pc, goal, rep.stats, budget_s=budget_s, quick_ms=quick_ms, rules=rules)
             if r == "unsat":
                 rep.proved += 1
                 if len(rep.samples) < keep_samples and goal.op != "true":
